@@ -199,6 +199,7 @@ func c18ClaimsPair(c *choice.Ctx, st *Stats, build func() psatoken.IClaims, labe
 // otherActivity exercises the library on objects unrelated to the one under observation.
 func otherActivity() {
 	pollute(11) // stock-factory claims changed through their pointers
+	pollute(12) // serialisations of unrelated derived structs refused midway
 	cl := c02Claims()
 	k := fixtures.Get("ES256", 2)
 	for _, a := range []*refmodel.Claims{cl[3], cl[1], cl[0]} {
@@ -227,6 +228,7 @@ func otherActivity() {
 // otherActivityLight: encode / decode unrelated claims-sets (no signing).
 func otherActivityLight() {
 	pollute(11) // stock-factory claims changed through their pointers
+	pollute(12) // serialisations of unrelated derived structs refused midway
 	cl := c02Claims()
 	for _, a := range []*refmodel.Claims{cl[3], cl[1]} {
 		if x, err := realise(a); err == nil {
